@@ -53,6 +53,7 @@ pub fn gen_case(rng: &mut Rng, flavour: Flavour, thorough: bool) -> ModelCase {
     // legal-but-unusual I/O behaviour (short writes, EINTR) in a third of the
     // FsStorage runs: it must change nothing
     transparent: storage == StorageKind::Fs && rng.chance(1, 3),
+    odd_ids: rng.chance(1, 4),
   };
   let len = if rng.chance(4, 5) {
     2 + rng.usize(12)
